@@ -47,6 +47,15 @@ ApplyF(ms, a) ==
     [] a.op = "SetTime"    -> DoSetTime(ms, a)
     [] a.op = "AddType"    -> DoAddType(ms, a)
     [] a.op = "AddRecord"  -> DoAddRecord(ms, a)
+    [] a.op = "Bundle"     -> DoBundle(ms, a)
+    [] a.op = "NewBundle"  -> DoNewBundle(ms, a)
+    [] a.op = "NewDoc"     -> DoNewDoc(ms, a)
+    [] a.op = "Update"     -> DoUpdate(ms, a)
+    [] a.op = "AddBundle"  -> DoAddBundle(ms, a)
+    [] a.op = "Flattened"  -> DoFlattened(ms, a)
+    [] a.op = "DocFromRecs" -> DoDocFromRecs(ms, a)
+    [] a.op = "Unified"    -> DoUnified(ms, a)
+    [] a.op = "GetRecord"  -> DoGetRecord(ms, a)
 
 (* Fold ApplyF over a sequence of actions *)
 RECURSIVE RunF(_, _, _)
@@ -63,9 +72,11 @@ InitDoc ==
   [mgr |-> ("doc" :> MgrInit("")),
    con |-> ("doc" :> ConInit("doc", "doc", NoQN, "")),
    handed |-> {}]
+InitEmpty == [mgr |-> <<>>, con |-> <<>>, handed |-> {}]
 InitMs(init) ==
   CASE init = "docbun" -> InitDocBun
     [] init = "doc"    -> InitDoc
+    [] init = "empty"  -> InitEmpty
 
 (* ---- projection of the model state, in the shape the harness logs ---- *)
 ProjNs(st) == [reg |-> st.reg, dflt |-> st.dflt]
@@ -78,7 +89,8 @@ ProjVal(v) ==
     [] OTHER       -> v
 ProjRec(r) == [k |-> r.k, id |-> IF r.id.ok THEN Uri(r.id) ELSE NONE,
                attrs |-> {[a |-> Uri(x.a), v |-> ProjVal(x.v)] : x \in r.attrs}]
-ProjCon(c) == [recs |-> [i \in 1..Len(c.recs) |-> ProjRec(c.recs[i])]]
+ProjCon(c) == [recs |-> [i \in 1..Len(c.recs) |-> ProjRec(c.recs[i])],
+               kind |-> c.kind, id |-> IF c.id.ok THEN Uri(c.id) ELSE NONE, bundles |-> c.bundles]
 ProjAllCon(ms) == [h \in DOMAIN ms.con |-> ProjCon(ms.con[h])]
 
 (* re-resolution table of every handed-out name, as the harness logs it;     *)
